@@ -441,9 +441,12 @@ class Session:
         with warnings.catch_warnings(record=True) as w:
             warnings.simplefilter("always")
             try:
-                ob = self.run_op(o)
+                with time_limit(5.0):         # a loop of the implementation that never ends must not hang the check
+                    ob = self.run_op(o)
             except RuntimeError:
                 raise
+            except TimeoutError:
+                ob = ["exn", "Timeout"]
             except Exception as e:  # noqa
                 ob = ["exn", EXN.get(type(e).__name__, "OtherError")]
         msgs = [str(x.message) for x in w]
@@ -528,7 +531,7 @@ def coq_obs(ob):
     if t == "none":
         return "BNone"
     if t == "exn":
-        return "(BExn {})".format(ob[1])
+        return "(BExn {})".format("OtherError" if ob[1] == "Timeout" else ob[1])
     if t == "val":
         return "(BVal {})".format(coq_oq(ob[1]))
     if t == "err":
